@@ -1,5 +1,6 @@
 import LeanHelix.Net.Reach
 import LeanHelix.Props.C05Accept
+import LeanHelix.Lemmas.QuorumNil
 /-!
 # The network model, part 6: what a member has emitted about its own position
 
@@ -12,17 +13,39 @@ Used by the liveness composition (`Props/C05Net.lean`) to read the leader's stat
 namespace LeanHelix.Net
 open LeanHelix LeanHelix.Msg LeanHelix.Term
 
+/-- `blk` is the block of a stored proposal of some (h, v) whose hash is the hash of the certificate `cs`,
+and `cs` is a non-empty list of COMMITs for exactly (h, v, that hash) -/
+def HasProposal (n : Node) (blk : Block) (cs : List CMsg) : Prop :=
+  ∃ h v ppm, n.store.getPP h v = some ppm ∧ ppm.block = some blk ∧ ppm.c.header.hash = commitHash cs
+    ∧ cs ≠ [] ∧ ∀ c ∈ cs, c.header.height = h ∧ c.header.view = v ∧ c.header.hash = commitHash cs
+
+/-- the shape of a NEW_VIEW built by the member with configuration `c` -/
+def NVOwn (c : Cfg) (nv : NVMsg) : Prop :=
+  nv.header.mtype = tNV ∧ nv.header.inst = c.inst ∧ nv.header.height = c.height ∧ nv.sender = mySig c
+  ∧ nv.pp.sender = nv.sender ∧ nv.pp.header.mtype = tPP ∧ nv.pp.header.inst = c.inst
+  ∧ nv.pp.header.height = c.height ∧ nv.pp.header.view = nv.header.view
+  ∧ isLeader c c.me nv.header.view = true ∧ ∃ b, nv.block = some b
+
 structure Sent (n : Node) (outs : List Out) : Prop where
   prepared : ∀ pv, n.prepared = some pv → ∃ ppm, n.store.getPP n.cfg.height pv = some ppm
       ∧ C03.ckey (ownCommit n.cfg n.cfg.height pv ppm.c.header.hash) ∈ n.store.commits.map C03.ckey
       ∧ ∃ rs, Out.send rs (.commit (ownCommit n.cfg n.cfg.height pv ppm.c.header.hash)) ∈ outs
   newViews : ∀ rs nv, Out.send rs (.newView nv) ∈ outs → n.store.getPP n.cfg.height nv.header.view = some ⟨nv.pp, nv.block⟩
   preprepares : ∀ rs ppm, Out.send rs (.preprepare ppm) ∈ outs → n.store.getPP n.cfg.height ppm.c.header.view = some ppm
+  /-- every block handed to the commit callback is the block of a stored proposal, whose signed hash, height
+  and view are those of every COMMIT of the (non-empty) certificate handed over with it -/
+  commits : ∀ blk cs, Out.commit blk cs ∈ outs → HasProposal n blk cs
+  /-- every NEW_VIEW among the effects has the shape `onElectedByViewChange` gives it: this instance and
+  height, signed by this member — which leads the NEW_VIEW's view —, the embedded proposal signed by
+  the same member, PREPREPARE-typed, for the same view, and with a block -/
+  nvShape : ∀ rs nv, Out.send rs (.newView nv) ∈ outs → NVOwn n.cfg nv
 
 theorem sent_init (c : Cfg) : Sent { cfg := c } [] where
   prepared := by intro _ h; cases h
   newViews := by intro _ _ h; cases h
   preprepares := by intro _ _ h; cases h
+  commits := by intro _ _ h; cases h
+  nvShape := by intro _ _ h; cases h
 
 theorem getPP_of_prefix {s t : Store} (hp : s.pps <+: t.pps) {h v : Nat} {p : PPMsg} (hg : s.getPP h v = some p) :
     t.getPP h v = some p := by
@@ -40,7 +63,19 @@ emits neither NEW_VIEW nor PREPREPARE keeps `Sent` -/
 theorem sent_extend (a b : Node) {outs0 l : List Out} (hc : b.cfg = a.cfg) (hp : b.prepared = a.prepared)
     (hle : StoreLe a.store b.store)
     (hnv : ∀ rs nv, Out.send rs (.newView nv) ∉ l) (hpp : ∀ rs ppm, Out.send rs (.preprepare ppm) ∉ l)
+    (hcm : ∀ blk cs, Out.commit blk cs ∈ l → HasProposal b blk cs)
     (h : Sent a outs0) : Sent b (outs0 ++ l) where
+  nvShape := by
+    intro rs nv hm
+    rcases List.mem_append.mp hm with hm | hm
+    · rw [hc]; exact h.nvShape rs nv hm
+    · exact absurd hm (hnv rs nv)
+  commits := by
+    intro blk cs hm
+    rcases List.mem_append.mp hm with hm | hm
+    · obtain ⟨h', v, ppm, hg, r⟩ := h.commits blk cs hm
+      exact ⟨h', v, ppm, getPP_of_prefix hle.pps hg, r⟩
+    · exact hcm blk cs hm
   prepared := by
     intro pv hpv
     rw [hp] at hpv
@@ -64,19 +99,39 @@ theorem blk_sent {e : Event} {spi0 : List Spi} {a b : Node} {l : List Out} {g : 
   have hcfg := C01Local.blk_cfg hb
   cases hb with
   | quiet hq hs hl =>
-    refine sent_extend a _ hq.cfg hq.prepared hle ?_ ?_ h
+    refine sent_extend a _ hq.cfg hq.prepared hle ?_ ?_ ?_ h
     · intro rs nv hm; have := hl _ hm; simp [stmtOf] at this
     · intro rs ppm hm; have := hl _ hm; simp [stmtOf] at this
-  | log op he => exact sent_extend a _ rfl rfl hle (fun _ _ hm => by cases hm) (fun _ _ hm => by cases hm) h
-  | accept ppm f rcpt => exact sent_extend a _ rfl rfl hle (fun _ _ hm => by simp at hm) (fun _ _ hm => by simp at hm) h
-  | late h' v hash rcpt hq => exact sent_extend a _ rfl rfl hle (fun _ _ hm => by simp at hm) (fun _ _ hm => by simp at hm) h
-  | voteSend vc rcpt => exact sent_extend a _ rfl rfl hle (fun _ _ hm => by simp at hm) (fun _ _ hm => by simp at hm) h
-  | voteStore vc => exact sent_extend a _ rfl rfl hle (fun _ _ hm => by cases hm) (fun _ _ hm => by cases hm) h
+    · intro blk cs hm; have := hl _ hm; simp [stmtOf] at this
+  | log op he => exact sent_extend a _ rfl rfl hle (fun _ _ hm => by cases hm) (fun _ _ hm => by cases hm) (fun _ _ hm => by cases hm) h
+  | accept ppm f rcpt => exact sent_extend a _ rfl rfl hle (fun _ _ hm => by simp at hm) (fun _ _ hm => by simp at hm) (fun _ _ hm => by simp at hm) h
+  | late h' v hash rcpt hq => exact sent_extend a _ rfl rfl hle (fun _ _ hm => by simp at hm) (fun _ _ hm => by simp at hm) (fun _ _ hm => by simp at hm) h
+  | voteSend vc rcpt => exact sent_extend a _ rfl rfl hle (fun _ _ hm => by simp at hm) (fun _ _ hm => by simp at hm) (fun _ _ hm => by simp at hm) h
+  | voteStore vc => exact sent_extend a _ rfl rfl hle (fun _ _ hm => by cases hm) (fun _ _ hm => by cases hm) (fun _ _ hm => by cases hm) h
   | decide blk cs h' v hash hq hs hcs hcq hpp =>
-    exact sent_extend a _ hq.cfg hq.prepared hle (fun _ _ hm => by simp at hm) (fun _ _ hm => by simp at hm) h
+    refine sent_extend a _ hq.cfg hq.prepared hle (fun _ _ hm => by simp at hm) (fun _ _ hm => by simp at hm) ?_ h
+    intro blk' cs' hm
+    simp only [List.mem_singleton, Out.commit.injEq] at hm
+    obtain ⟨ppm, hg, hblk, hhash⟩ := hpp
+    have hne : cs ≠ [] := by
+      intro he
+      rw [he] at hcq
+      simp [isQuorum_nil] at hcq
+    have hall : ∀ c ∈ cs, c.header.height = h' ∧ c.header.view = v ∧ c.header.hash = hash := by
+      intro c hc
+      rw [hcs] at hc
+      exact (mem_getCommits_all hc).2
+    have hch : commitHash cs = hash := by
+      cases hcons : cs with
+      | nil => exact absurd hcons hne
+      | cons c rest => exact (hall c (by rw [hcons]; exact List.mem_cons_self ..)).2.2
+    rw [hm.1, hm.2]
+    refine ⟨h', v, ppm, by rw [hs]; exact hg, hblk, by rw [hch]; exact hhash, hne, ?_⟩
+    intro c hc
+    rw [hch]; exact hall c hc
   | prepared v hash rcpt hv hnot hpp hproof =>
     obtain ⟨ppm, hg, hh, _⟩ := hpp
-    refine ⟨?_, ?_, ?_⟩
+    refine ⟨?_, ?_, ?_, ?_, ?_⟩
     · intro pv hpv
       have : pv = v := by
         have : (preparedNode a v hash).prepared = some v := rfl
@@ -93,11 +148,20 @@ theorem blk_sent {e : Event} {spi0 : List Spi} {a b : Node} {l : List Out} {g : 
       rcases List.mem_append.mp hm with hm | hm
       · exact getPP_of_prefix hle.pps (h.preprepares rs p hm)
       · simp at hm
+    · intro blk cs hm
+      rcases List.mem_append.mp hm with hm | hm
+      · obtain ⟨h', v', p0, hg0, r⟩ := h.commits blk cs hm
+        exact ⟨h', v', p0, getPP_of_prefix hle.pps hg0, r⟩
+      · simp at hm
+    · intro rs nv hm
+      rcases List.mem_append.mp hm with hm | hm
+      · exact h.nvShape rs nv hm
+      · simp at hm
   | propose ppm f o hh hv hnone hlnv hf ho hown hsrc hreq hblk hmsg =>
     have hnew : ({ a with store := a.store.storePP ppm } : Node).store.getPP a.cfg.height a.view = some ppm := by
       have := C05.storePP_getPP_new a.store ppm (by rw [hh, hv]; exact hnone)
       rw [hh, hv] at this; exact this
-    refine ⟨?_, ?_, ?_⟩
+    refine ⟨?_, ?_, ?_, ?_, ?_⟩
     · intro pv hpv
       obtain ⟨p0, hg, hk, rs, hs⟩ := h.prepared pv hpv
       exact ⟨p0, getPP_of_prefix hle.pps hg, ckey_of_prefix hle.commits hk, rs, List.mem_append_left _ hs⟩
@@ -121,6 +185,23 @@ theorem blk_sent {e : Event} {spi0 : List Spi} {a b : Node} {l : List Out} {g : 
           rw [hm.2, hv]
           exact hnew
         · rw [ho'] at hm; cases hm
+    · intro blk cs hm
+      rcases List.mem_append.mp hm with hm | hm
+      · obtain ⟨h', v', p0, hg0, r⟩ := h.commits blk cs hm
+        exact ⟨h', v', p0, getPP_of_prefix hle.pps hg0, r⟩
+      · simp only [List.mem_singleton] at hm
+        rcases hmsg with ⟨rcpt, ho'⟩ | ⟨rcpt, nvm, h', ho', _⟩ <;> (rw [ho'] at hm; cases hm)
+    · intro rs nv hm
+      rcases List.mem_append.mp hm with hm | hm
+      · exact h.nvShape rs nv hm
+      · simp only [List.mem_singleton] at hm
+        rcases hmsg with ⟨rcpt, ho'⟩ | ⟨rcpt, nvm, h', ho', _, _, hexact, hlead, _, _⟩
+        · rw [ho'] at hm; cases hm
+        · rw [ho'] at hm
+          simp only [Out.send.injEq, Message.newView.injEq] at hm
+          obtain ⟨b0, hb0, _⟩ := hblk
+          rw [hm.2, hexact]
+          exact ⟨rfl, rfl, rfl, rfl, hown.1, hown.2.2, hown.2.1, hh, hv, hlead, b0, hb0⟩
 
 theorem runs_sent {e : Event} {spi0 : List Spi} {w w' : Term.W} {g : List LEv} (hr : Runs e spi0 w w' g) :
     ∀ outs0, Sent w.n (outs0 ++ w.outs) → Sent w'.n (outs0 ++ w'.outs) := by
